@@ -286,7 +286,7 @@ extern MPT_INTERFACE(metatype) *_mpt_iterator_range(MPT_STRUCT(value) *val)
 		
 		if (!isfinite(r.max - r.min)
 		  || !(step > 0)
-		  || step > (r.max - r.min)
+		  || step > (r.max - r.min) * (1 + 8 * DBL_EPSILON)
 		  || step < (r.max - r.min) * 1e-6) {
 			errno = ERANGE;
 			return 0;
